@@ -147,9 +147,10 @@ def main(pid, tier, seed, replay):
                         assumption_reports=proofs["assumption_reports"], axioms=proofs["axioms"])
         if proofs["failed"] or not proofs["ok"]:
             errs = [l for l in proofs["output"].split("\n") if "Error" in l or l.startswith("File ")]
-            for name in (proofs["failed"] or ["<build>"]):
-                findings.append(Finding("proof", "theorem %s is no longer accepted by Coq (files: %s)" % (name, ", ".join(proofs["failed_files"])),
-                                        dict(theorem=name, files=proofs["failed_files"], coq_errors=errs[:20], output_tail=proofs["output"][-3000:])))
+            names = proofs["failed"] or ["<build>"]
+            findings.append(Finding("proof", "%d theorem(s) no longer accepted by Coq: %s (files: %s)" % (
+                                        len(names), ", ".join(names[:30]), ", ".join(proofs["failed_files"])),
+                                    dict(theorems=names, files=proofs["failed_files"], coq_errors=errs[:20], output_tail=proofs["output"][-3000:])))
         if proofs["axioms"]:
             findings.append(Finding("forbidden", "axioms outside the allowlist: %s" % proofs["axioms"], dict(axioms=proofs["axioms"])))
         if forbidden:
